@@ -57,9 +57,9 @@ def scenarios(chk, tier, seed, calls):
         out.append(("R", random_session(rng, "wide", ("find_answer",), max_product=7000)))
     # (W) programs too large to enumerate, judged by supplied solutions; half of them under a configured
     # solver_timeout (cspuz.config), which may make a call refuse loudly but never answer wrongly
-    for n in ((4, 5) if tier == "quick" else (4, 5, 6, 7)):
+    for n in ((4, 5, 8) if tier == "quick" else (4, 5, 6, 7, 8)):
         for limit in (None, 0.001):
-            for _ in range(3 if tier == "quick" else 8):
+            for _ in range((3 if n < 8 else 1) if tier == "quick" else (8 if n < 8 else 2)):
                 out.append(("W", latin_session(rng, n, calls if n <= 5 else ("find_answer",), limit)))
     # scale-up: sums with 17 .. 300 operands
     for n in ((17, 33, 129, 130, 257) if tier == "quick" else (17, 33, 65, 129, 130, 150, 200, 257, 300)):
